@@ -337,3 +337,13 @@ def raises(fn, *exc):
             return e
         return e
     return None
+
+
+def call(fn):
+    """(result, exception) of fn(); only ordinary Exceptions are caught"""
+    try:
+        return fn(), None
+    except (core.Abort, core.Unsupported):
+        raise
+    except Exception as e:      # noqa
+        return None, e
